@@ -90,6 +90,12 @@ def runC12Case (c : CaseBlock) : IO Unit := do
       IO.println s!"mon C12 FAIL {c.id} framework-new-accepts result={vF} validate={vV} fractions-ok={fracsOK}"
     if [vV, vN, vS, vF].any (fun x => x == "panic" || x == "hang") then
       IO.println s!"mon C12 FAIL {c.id} construction-path-panicked validate={vV} new={vN} fromstr={vS} fwnew={vF}"
+    -- "a machine obtained from any of them can always be run": the harness drives every framework the
+    -- implementation built through a scripted history; the same fact is part of C01 (totality)
+    let vR := out1 op "run"
+    if vF == "ok" && (vR == "panic" || vR == "hang") then
+      IO.println s!"mon C12 FAIL {c.id} accepted-machine-cannot-be-run result={vR} wellformed={wf}"
+      IO.println s!"mon C01 FAIL {c.id} accepted-machine-cannot-be-run result={vR} wellformed={wf}"
     IO.println s!"sig {c.id} {labelClass c.kind},{if acc then "accept" else "reject"},{if wf then "wf" else "notwf"}"
 
 /-! ### C13 -/
